@@ -131,6 +131,8 @@ NORM = {
     "domain_keys": [[cp("facebook.com"), [cp("_rdc"), cp("_rdr")]],
                     [cp("youtube.com"), [cp(x) for x in ["t", "si", "cbrd", "ucbcb", "ab_channel"]]]],
     "lang_keys": [cp("gl"), cp("hl")],
+    # public suffixes (host order) the fingerprint machine swaps among (consistency with the bundled list is checked at run time)
+    "suffixes": [[cp(l) for l in x.split(".")] for x in ["com", "fr", "co.uk", "org", "github.io", "com.br"]],
     "redirect_keys": [cp(x) for x in ["url", "u", "l", "q", "next", "redirect", "redirect_to", "target", "link", "goto", "redir", "orig"]],
     "platform_domains": [[cp("youtube"), cp("com")], [cp("facebook"), cp("com")]],      # host order
     "sub_labels": [cp(x) for x in ["www", "mobile", "m"]],               # plus www<digit>
